@@ -121,6 +121,23 @@ func c14Check(cs c14Case) (bad bool, msg string) {
 		if c1 != c2 || c1 != c3 || c1 != c4 || a1 != 1 || a2 != 1 || a3 != 1 || a4 != 1 {
 			return true, fmt.Sprintf("%s opaque %v: NRGBA %v/%v, RGBA %v/%v, generic(NRGBA) %v/%v, generic(RGBA) %v/%v disagree", cs.Space, v, c1, a1, c2, a2, c3, a3, c4, a4)
 		}
+	case "opaque-gray8": // a grey as color.Gray, color.NRGBA, color.RGBA and color.Gray16 / own type: one linear value
+		v := uint8(cs.In[0])
+		c0, a0 := s.FromNRGBA(color.NRGBA{R: v, G: v, B: v, A: 255})
+		for name, c := range map[string]color.Color{"color.Gray": color.Gray{Y: v}, "color.Gray16": color.Gray16{Y: uint16(v) * 0x101}, "color.RGBA": color.RGBA{R: v, G: v, B: v, A: 255}, "color.YCbCr": color.YCbCr{Y: v, Cb: 128, Cr: 128}, "color.CMYK": color.CMYK{C: 0, M: 0, Y: 0, K: 255 - v}, "own16": own16c14{uint16(v) * 0x101}} {
+			r16, g16, b16, a16 := c.RGBA()
+			if a16 != 0xFFFF || r16 != uint32(v)*0x101 || g16 != r16 || b16 != r16 {
+				continue // this carrier does not report exactly that grey (YCbCr / CMYK rounding): nothing to compare
+			}
+			c1, a1 := s.FromEncoded(c)
+			if c1 != c0 || a1 != a0 || a1 != 1 {
+				return true, fmt.Sprintf("%s opaque grey %d: ColorFromNRGBA gives %v/%v, ColorFromEncodedColor(%s) gives %v/%v", cs.Space, v, c0, a0, name, c1, a1)
+			}
+			l0 := s.Linearise(color.NRGBA{R: v, G: v, B: v, A: 255})
+			if l1 := s.Linearise(c); l1 != l0 {
+				return true, fmt.Sprintf("%s opaque grey %d: LineariseColor(color.NRGBA) = %v, LineariseColor(%s) = %v", cs.Space, v, l0, name, l1)
+			}
+		}
 	case "opaque16":
 		c1, a1 := s.FromEncoded(color.RGBA64{R: cs.In[0], G: cs.In[1], B: cs.In[2], A: 65535})
 		c2, a2 := s.FromEncoded(color.NRGBA64{R: cs.In[0], G: cs.In[1], B: cs.In[2], A: 65535})
@@ -152,6 +169,13 @@ func c14Check(cs c14Case) (bad bool, msg string) {
 		}
 	}
 	return false, "ok"
+}
+
+// own16c14 is a caller-defined opaque grey.
+type own16c14 struct{ y uint16 }
+
+func (c own16c14) RGBA() (uint32, uint32, uint32, uint32) {
+	return uint32(c.y), uint32(c.y), uint32(c.y), 0xFFFF
 }
 
 func c14Chans(a int, k int) uint16 {
@@ -547,6 +571,13 @@ func runC14(r *core.Run) {
 			cs := c14Case{Space: s.Name, Entry: "opaque8", In: [4]uint16{uint16(v), uint16(255 - v), uint16(v*5) & 255, 255}}
 			if bad, msg := c14Check(cs); bad {
 				r.Violate("opaque", s.Name+"/opaque8", msg, cs)
+			}
+			evals++
+		}
+		for v := 0; v < 256; v++ {
+			cs := c14Case{Space: s.Name, Entry: "opaque-gray8", In: [4]uint16{uint16(v), 0, 0, 255}}
+			if bad, msg := c14Check(cs); bad {
+				r.Violate("opaque", s.Name+"/opaque-gray8", msg, cs)
 			}
 			evals++
 		}
